@@ -1446,6 +1446,11 @@ def grid_section(ck):
     NB = ck.n(20, 200)
     for it in range(NB):
         shape = _gen_shape(rng, it, singleton=False)
+        if any(x == 1 for x in shape):
+            # an extent-1 voxel axis (also a one-voxel flat list): glm.fit squeezes it out of s2 but not out of the effect -
+            # the recorded C05 finding labs.contrast/stat-shape/voxel-axis-of-extent-1-squeezed-from-s2-not-from-effect,
+            # checked there; excluded here exactly like the singleton-axis grids (singleton=False)
+            continue
         cls = _shape_class(shape)
         nvox = int(np.prod(shape))
         T, p = int(rng.integers(8, 14)), 3
